@@ -29,6 +29,7 @@ import (
 	"strconv"
 	"strings"
 	"sync"
+	"sync/atomic"
 	"time"
 
 	"github.com/emersion/go-imap/v2"
@@ -701,11 +702,29 @@ func autoServer(w *world, stop chan struct{}, rng *rand.Rand, killAfter int) {
 		if strings.Contains(line, " CAPABILITY") {
 			w.srv.Write([]byte("* CAPABILITY IMAP4rev1\r\n"))
 		}
+		// the mirror of the selected mailbox changes under the feet of whoever holds a snapshot of it
+		if strings.Contains(line, " SELECT") {
+			w.srv.Write([]byte("* 9 EXISTS\r\n* FLAGS (\\Seen \\Deleted)\r\n* OK [PERMANENTFLAGS (\\Seen)] ok\r\n"))
+		}
+		if strings.Contains(line, " EXPUNGE") {
+			w.srv.Write([]byte("* 1 EXPUNGE\r\n* 1 EXPUNGE\r\n"))
+		}
+		if strings.Contains(line, " NOOP") {
+			switch rng.Intn(4) {
+			case 0:
+				w.srv.Write([]byte("* 1 EXPUNGE\r\n"))
+			case 1:
+				w.srv.Write([]byte("* 12 EXISTS\r\n* FLAGS (\\Seen custom)\r\n"))
+			}
+		}
 		// (a LOGIN is answered without CAPABILITY code: the client forgets what it knew and asks again on its
 		// own, while the other goroutines go on submitting commands)
 		w.srv.Write([]byte(tag + " OK done\r\n"))
 	}
 }
+
+// snapshots: sink for what the stress goroutines read from the snapshots Client.Mailbox() hands out
+var snapshots int64
 
 func cmdStress(path string, seed int64, rounds int) {
 	out := vh.NewOut()
@@ -747,7 +766,11 @@ func cmdStress(path string, seed int64, rounds int) {
 					done := make(chan struct{})
 					go func() {
 						defer close(done)
-						switch lr.Intn(8) {
+						switch lr.Intn(10) {
+						case 8:
+							w.cl.Select("m", nil).Wait()
+						case 9:
+							w.cl.Expunge().Collect()
 						case 7:
 							w.cl.Login("u", "p").Wait()
 						case 5:
@@ -773,7 +796,10 @@ func cmdStress(path string, seed int64, rounds int) {
 						case 4:
 							w.cl.Caps()
 							w.cl.State()
-							w.cl.Mailbox()
+							// what Mailbox returns is a snapshot: reading it must not meet the reader's updates
+							if m := w.cl.Mailbox(); m != nil {
+								atomic.AddInt64(&snapshots, int64(m.NumMessages)+int64(len(m.Flags))+int64(len(m.PermanentFlags))+int64(len(m.Name)))
+							}
 						}
 					}()
 					select {
